@@ -77,7 +77,7 @@ func RunBehaviours(bs []Behaviour, out string, workers int) error {
 
 // RandomBehaviour draws an action sequence without consulting the specification (the code→spec
 // direction): mostly protocol progress, interleaved with adversarial requests.
-func RandomBehaviour(rng *mrand.Rand, cfg Config, n int, forge map[int][]string) Behaviour {
+func RandomBehaviour(rng *mrand.Rand, cfg Config, n int, forge map[int][]string, focus int) Behaviour {
 	b := Behaviour{Cfg: cfg}
 	type st struct{ proto, dev string }
 	slots := map[int]*st{}
@@ -88,8 +88,35 @@ func RandomBehaviour(rng *mrand.Rand, cfg Config, n int, forge map[int][]string)
 	startTypes := []int{10, 20, 30, 60}
 	toks := []string{"own", "own", "own", "none", "bad"}
 	bodies := []string{"replay", "replay", "foreign", "garbage", "skip"}
+	scenario := func() {
+		// a targeted forgery: bring a fresh session to the message of interest, then forge it
+		as := forge[focus]
+		if len(as) == 0 || len(slots) >= 3 {
+			return
+		}
+		atom := as[rng.Intn(len(as))]
+		d := devs[rng.Intn(len(devs))]
+		s := len(slots) + 1
+		switch focus {
+		case 22:
+			slots[s] = &st{"TO0", d}
+			b.Actions = append(b.Actions, Action{A: "start", S: s, P: "TO0", D: d}, Action{A: "forged", S: s, Atom: atom})
+		case 32:
+			slots[s] = &st{"TO0", d}
+			slots[s+1] = &st{"TO1", d}
+			b.Actions = append(b.Actions, Action{A: "start", S: s, P: "TO0", D: d}, Action{A: "honest", S: s},
+				Action{A: "start", S: s + 1, P: "TO1", D: d}, Action{A: "forged", S: s + 1, Atom: atom})
+		case 64:
+			slots[s] = &st{"TO2", d}
+			b.Actions = append(b.Actions, Action{A: "start", S: s, P: "TO2", D: d}, Action{A: "honest", S: s}, Action{A: "forged", S: s, Atom: atom})
+		}
+	}
 	for len(b.Actions) < n {
 		r := rng.Intn(100)
+		if focus != 0 && rng.Intn(6) == 0 {
+			scenario()
+			continue
+		}
 		var used []int
 		for s := range slots {
 			used = append(used, s)
